@@ -6,7 +6,8 @@ A *case* is a plain dict (JSON-able through harness.core.ser):
     jsonclass  bool                 Config.use_jsonclass
     table      [cdesc]              callable descriptors; a callable id (cid) is an index in this list
                  cdesc = {"sig": {"pos": [names], "ndef": n, "varargs": b, "kwonly": [[name, has_default]], "varkw": b},
-                          "beh": ["ret", value] | ["opaque"] | ["echo"] | ["raise", class name, text] | ["typeerr", text]}
+                          "beh": ["ret", value] | ["opaque"] | ["echo"] | ["raise", class name, text] | ["typeerr", text]
+                                 | ["fault", code, text]   (returns jsonrpclib.Fault(code, text), built with the default config)}
     funcs      {name: cid}          register_function
     inst       None | {"dispatch": cid | None, "attrs": tree}     register_instance
                  tree = {name: ["call", cid] | ["obj", tree] | ["data"]}
@@ -122,6 +123,9 @@ class Runtime(object):
             raise EXC[beh[1]](beh[2])
         if beh[0] == "typeerr":
             raise TypeError(beh[1])
+        if beh[0] == "fault":
+            import jsonrpclib
+            return jsonrpclib.Fault(beh[1], beh[2])
         raise AssertionError(beh)
 
     def _make(self, c, desc):
@@ -307,6 +311,8 @@ def g_beh(b):
         return "(BRaise %s %s)" % (G.g_str(b[1]), G.g_str(b[2]))
     if b[0] == "typeerr":
         return "(BTypeErr %s)" % G.g_str(b[1])
+    if b[0] == "fault":
+        return "(BFault (%d) %s)" % (b[1], G.g_str(b[2]))
     raise ValueError(b)
 
 
